@@ -19,7 +19,7 @@ ASSUMPTIONS = ["rayon par_iter_mut().enumerate() yields (position, element) pair
 REORDER = r"::(par_sort\w*|sort\w*|swap|reverse|retain\w*|dedup\w*|drain|rotate_\w+|shuffle|truncate|insert|remove|swap_remove|split_off|append|extend\w*|clear)(::<.*)?$"
 
 
-def r1_reindex(cx):
+def r1_reindex(cx, rule="R1"):
     F = cx.F
     f = F.one(impl_self="creator::directory_pack::entry_store::EntryStore", item="finalize", trait="EntryStoreTrait", closure=False)
     b = F.body(f)
@@ -36,19 +36,28 @@ def r1_reindex(cx):
     consumers = b.calls(r"Schema::<.*>::process$", r"Schema::<.*>::finalize$")
     fes = [(i, None) for i, blk in enumerate(b.blocks) if not blk.get("cleanup") for s in blk["s"] if s["k"] == "assign" and s["rv"]["k"] == "agg" and s["rv"].get("adt", "").endswith("FinalEntryStore")]
     cons = [(i, t) for i, t in consumers] + fes
-    cx.ob("R1", "R1/anchors", len(reorders) >= 2 and len(sei) >= 2 and len(cons) >= 3, f, "EntryStore::finalize: %d reorder sites, %d set_entry_idx sites, %d consumers" % (len(reorders), len(sei), len(cons)))
+    cx.ob(rule, rule + "/anchors", len(reorders) >= 2 and len(sei) >= 2 and len(cons) >= 3, f, "EntryStore::finalize: %d reorder sites, %d set_entry_idx sites, %d consumers" % (len(reorders), len(sei), len(cons)))
     sset = {i for i, _ in sei}
     for k, (ri, rt) in enumerate(sorted(reorders, key=lambda x: x[1].get("ln", 0))):
         r = b.reach_after(ri, avoid=sset | err)
         bad = [b.ln(ci) if ci is not None else None for ci, _ in cons if ci in r]
-        cx.ob("R1", "R1/reorder@%d:%s" % (k, ((rt.get("callee") or {}).get("def") or "").split("::")[-1]), not bad, f,
+        cx.ob(rule, rule + "/reorder@%d:%s" % (k, ((rt.get("callee") or {}).get("def") or "").split("::")[-1]), not bad, f,
               "after %s on self.entries every path to a consumer passes set_entry_idx (consumers reachable without it at lines %s)" % (callee_str(rt).split("::")[-1], bad), ln=rt.get("ln"))
     # unsorted path: some set_entry_idx dominates every consumer
     for ci, ct in cons:
         ok = any(b.dominates(si, ci) for si in sset)
-        cx.ob("R1", "R1/indexed-before-consumer@%s" % (callee_str(ct).split("::")[-1] if ct else "FinalEntryStore"), ok, f, "a set_entry_idx dominates this consumer (also when the store is not sorted)", ln=b.ln(ci))
+        cx.ob(rule, rule + "/indexed-before-consumer@%s" % (callee_str(ct).split("::")[-1] if ct else "FinalEntryStore"), ok, f, "a set_entry_idx dominates this consumer (also when the store is not sorted)", ln=b.ln(ci))
+    # and the other way round: what a consumer has seen stays true -- no reordering (hence no new positions) after it.
+    # `Schema::process` chooses the byte width of every column, also of those that hold positions of other entries
+    late = []
+    for ci, ct in cons:
+        if ci is None:
+            continue
+        after = b.reach_after(ci, avoid=err)
+        late += [b.ln(ri) for ri, _ in reorders if ri in after]
+    cx.ob(rule, rule + "/no-reorder-after-a-consumer", not late, f, "no sort of self.entries is reachable once Schema::process / finalize has looked at the entries (sorts reachable after a consumer: lines %s)" % sorted(set(late)))
     # set_entry_idx is applied to self.entries
-    cx.ob("R1", "R1/reindex-the-same-vector", all(("field", "entries") in b.origins(t["args"][0]) for _, t in sei), f, "set_entry_idx is applied to self.entries")
+    cx.ob(rule, rule + "/reindex-the-same-vector", all(("field", "entries") in b.origins(t["args"][0]) for _, t in sei), f, "set_entry_idx is applied to self.entries")
 
 
 def r2_index_is_position(cx):
@@ -202,7 +211,24 @@ def r5_entry_adopts_the_vow_it_is_given(cx):
         raise AnchorLost("constructors of BasicEntry taking a Vow<EntryIdx>: %d" % n)
 
 
+def r6_positions_in_signed_columns_keep_their_width(cx):
+    """a reference may be kept in a signed column (`SignedWord`): the width of that column is chosen from the sign-folded
+    value like any other signed column, so that a final position with its top bit set (128..255, 32768..) is not
+    truncated to a negative number (= C02-R1 under C15)"""
+    import c02
+    orig = cx.ob
+
+    def ob(rule, key, *a, **kw):
+        return orig("R6", key.replace("R1/", "R6/", 1), *a, **kw)
+    cx.ob = ob
+    try:
+        c02.r1_signed_width(cx)
+    finally:
+        cx.ob = orig
+
+
 RULES = [
+    ("R6", r6_positions_in_signed_columns_keep_their_width, 3),
     ("R1", r1_reindex, 7),
     ("R2", r2_index_is_position, 2),
     ("R3", r3_shared_cell, 6),
